@@ -200,4 +200,80 @@ def countElemsL : List Node → Nat
   | c :: cs => countElems c + countElemsL cs
 end
 
+/-! ### call sequences: one process, many `ExplodeXML` calls
+
+A long-running caller (the IDoc processor) explodes many payloads in one process and may rebuild
+its routing configuration in reused buffers.  What carries over from one call to the next on the
+implementation side is exactly the package-level variables of `pkg/idoc`; the current `explode.go`
+declares none (regenerated fact `KafVerif.C45.no_package_level_state`), every map / slice / stack
+of `ExplodeXML` is allocated inside the call.  So the process state is `Unit` and a call is a pure
+function of the configuration VALUE and the document it is given. -/
+
+/-- the package-level state of `pkg/idoc` between two calls: nothing -/
+abbrev PkgState := Unit
+
+/-- a call: the configuration value and the token stream of the document handed to THIS call -/
+abbrev Call := Cfg × List Tok
+
+/-- one `ExplodeXML` call in a process whose package state is `st` -/
+def callStep (st : PkgState) (c : Call) : PkgState × Res := (st, explode c.1 c.2)
+
+/-- a sequence of calls in one process, threading an arbitrary per-process state through `f` -/
+def runCallsWith {σ : Type} (f : σ → Call → σ × Res) : σ → List Call → List Res
+  | _, [] => []
+  | st, c :: cs => (f st c).2 :: runCallsWith f (f st c).1 cs
+
+/-- the results of a sequence of calls made by one process (current code) -/
+def runCalls (calls : List Call) : List Res := runCallsWith callStep () calls
+
+/-! A memoising variant (NOT the current code; it is what a "cache the lookup sets of the last
+configuration" change does).  The sets are a function of the configuration they were built from, so
+the remembered state is the pair (key compared against the next call's configuration, configuration
+the remembered sets were built from).  `memoStep` keeps a private copy of the key (compare by
+value); `aliasStep` stores the caller's slices themselves, so a caller that rewrites its
+configuration in place (`inPlace = true`, same buffers and lengths) rewrites the key as well. -/
+
+structure Memo where
+  key : Cfg
+  built : Cfg
+deriving Repr, DecidableEq
+
+def memoStep (st : Option Memo) (c : Call) : Option Memo × Res :=
+  match st with
+  | some m => if m.key = c.1 then (st, explode m.built c.2) else (some ⟨c.1, c.1⟩, explode c.1 c.2)
+  | none => (some ⟨c.1, c.1⟩, explode c.1 c.2)
+
+def sameShape (a b : Cfg) : Bool :=
+  a.items.length == b.items.length && a.partners.length == b.partners.length &&
+  a.statuses.length == b.statuses.length && a.dates.length == b.dates.length
+
+/-- the remembered key aliases the caller's buffers: an in-place rewrite (same shape) is seen through it -/
+def aliasStep (st : Option Memo) (ci : Call × Bool) : Option Memo × Res :=
+  let st' := match st with
+    | some m => if ci.2 && sameShape m.key ci.1.1 then some { m with key := ci.1.1 } else some m
+    | none => none
+  memoStep st' ci.1
+
+def runAliased : Option Memo → List (Call × Bool) → List Res
+  | _, [] => []
+  | st, c :: cs => (aliasStep st c).2 :: runAliased (aliasStep st c).1 cs
+
+/-! ### regenerated fact: package-level variables of `pkg/idoc` (see `Gen/C45Vars.lean`) -/
+
+/-- one package-level `var` of pkg/idoc (non-test files): declaration line and the number of sites inside function
+bodies (`init` excluded) that write it, take its address, call a method on it (struct / sync kinds) or let a map /
+slice / pointer escape into another variable or a call -/
+structure VarRow where
+  line : Nat
+  mutations : Nat
+deriving Repr, DecidableEq
+
+def varsOk (vs : List VarRow) : Bool := vs.all fun v => v.mutations == 0
+
+theorem varsOk_iff (vs : List VarRow) : varsOk vs = true ↔ ∀ v ∈ vs, v.mutations = 0 := by
+  simp [varsOk, List.all_eq_true]
+
+/-- a read-only table passes, a memo that is locked and rewritten by `buildSegmentSets` does not -/
+example : varsOk [⟨30, 0⟩] = true ∧ varsOk [⟨30, 0⟩, ⟨218, 6⟩] = false := by decide
+
 end KafVerif.Idoc
